@@ -99,7 +99,17 @@ def run(ctx):
             g2 = ctx.tlc("store", "MCKeyStore", core.cfg_text(constants=dict(consts, MaxOps=dep, MaxEntries=6),
                                                               constraints=["Dump"]),
                          workers=1, simulate="num=%d" % nsim, depth=dep + 2)
-            return combo, r, g1.tagged_json("BH"), g2.tagged_json("BH"), nsim
+            h3 = []
+            if kind != "plain" and not signature:
+                hc = dict(consts, Keys="<-HoleKeys", Vals={"x", "y", "z"}, MaxEntries=6, MaxOps=3 if ctx.quick else 4)
+                r3 = ctx.tlc("store", "MCKeyStore", core.cfg_text(spec="HolesSpec", constants=hc, view="MCView",
+                                                                  invariants=["ResultsAgree", "ContentAgrees"]), workers=4)
+                r.violated = list(r.violated) + list(r3.violated)
+                h3 = ctx.tlc("store", "MCKeyStore", core.cfg_text(spec="HolesSpec", constants=dict(hc, MaxOps=3), constraints=["Dump"]),
+                             workers=1).tagged_json("BH")
+                if len(h3) < 1000:
+                    raise core.MachineryError("holes history dump too small: %d" % len(h3))
+            return combo, r, g1.tagged_json("BH") + h3, g2.tagged_json("BH"), nsim
 
         with concurrent.futures.ThreadPoolExecutor(max_workers=len(combos)) as ex:
             results = list(ex.map(tlc_jobs, combos))
@@ -132,7 +142,8 @@ def run(ctx):
     finally:
         shutil.rmtree(root, True)
     return ctx.finish(rule="one case per (class, key set, operation history); key sets: {a, ab, a-, a., b} and {a, a.<32 hex "
-                           "digits of 1>, a.B}; histories: all of length 1 or 2 + simulated ones of length 8/12 (every successor "
+                           "digits of 1>, a.B}; histories: all of length 1 or 2, all of length 3 over {a, ab} that begin with a put of three values "
+                           "(ordinals with holes) + simulated ones of length 8/12 (every successor "
                            "of the last state); every result compared with the dictionary",
                       assumptions=["keys are non-empty strings within LMDB's key size limit; values non-empty strings",
                                    "put()/pin() with an empty list of values and ordinals >= 16 are outside the bounds"])
